@@ -385,7 +385,7 @@ class Run:
         # alone before they are believed
         for i, o in enumerate(impl):
             for _ in range(2):
-                if any(l.startswith(("err-", "CRASH", "dial-failed", "send-failed", "hung")) for l in o):
+                if any(l.startswith(("err-", "CRASH", "dial-failed", "send-failed", "hung", "HANG")) or " HANG" in l for l in o):
                     o = stream.impl([cases[i]])[0]
                     impl[i] = o
         model = stream.model(cases, impl)
